@@ -264,20 +264,28 @@ which Python's sort processes equal counts -/
 def commitOps (chk : Bool) (d : Disk) (v : View) (counts : List (Nat × Nat)) (tmp0 new0 tmp1 new1 : Nat) : List Op :=
   commitOpsWith chk d v (planAutopack counts) tmp0 new0 tmp1 new1
 
-/-- `RepositoryPackCollection.pack(hint=None)`: all packs `s = v.names` into
-`new1`; `optimal` = the packer found the single old pack already optimally
-packed (same content hash) and aborted; `clean` = `clean_obsolete_packs`.
+/-- `RepositoryPackCollection.pack(hint)`: the packs `s` selected by the hint
+(`none` = all of `v.names`) are combined into `new1`; `optimal` = the packer
+found the single old pack already optimally packed (same content hash) and
+aborted (CHK packer only); `clean` = `clean_obsolete_packs`.
 `_already_packed()` = `not (format.pack_compresses or len(names) > 1)` returns
 before anything is done (`pack_compresses` is true exactly for the CHK format
-2a, i.e. `chk`). -/
-def packOps (chk : Bool) (d : Disk) (v : View) (optimal clean : Bool) (tmp1 new1 : Nat) : List Op :=
-  let s := v.names
-  if !chk && s.length ≤ 1 then []
+2a, i.e. `chk`).  If the new pack's name is already in the collection
+(`allocate` raises "Pack … already exists") the operation stops after
+`finish()`. -/
+def packOps (chk : Bool) (d : Disk) (v : View) (hint : Option (List Nat)) (optimal clean : Bool)
+    (tmp1 new1 : Nat) : List Op :=
+  let s := match hint with
+    | none => v.names
+    | some h => v.names.filter (fun n => h.contains n)
+  if !chk && v.names.length ≤ 1 then []
+  else if !s.isEmpty && !optimal && v.names.contains new1 then newPackOps chk (upTmp tmp1 true) new1
   else
     let body :=
       if s.isEmpty then saveOps chk d v (some [])
       else if optimal then [Op.beginWrite (upTmp tmp1 true), Op.endWrite (upTmp tmp1 true), Op.delete (upTmp tmp1 true)]
-      else newPackOps chk (upTmp tmp1 true) new1 ++ saveOps chk d ⟨[new1], v.atLoad⟩ (some s)
+      else newPackOps chk (upTmp tmp1 true) new1
+        ++ saveOps chk d ⟨v.names.filter (fun n => !s.contains n) ++ [new1], v.atLoad⟩ (some s)
     body ++ (if clean then clearOps (run d body) [] else [])
 
 end BreezyVerif.C04
